@@ -480,6 +480,15 @@ func Step(cfg PConfig, s PState, c Cmd, k int) StepExp {
 			calls = []Call{{Kind: "Logout"}}
 		}
 		return StepExp{Alts: []Alt{{Replies: []RExp{code(220)}, Calls: calls, Next: n}}}
+	case "STARTTLSFAIL":
+		// step 0: STARTTLS; step 1 (only after 220): octets that are no handshake - an error reply, nothing changes
+		if k == 0 {
+			if s.TLS || !cfg.TLSAvail {
+				return refuse(s)
+			}
+			return StepExp{Alts: []Alt{{Replies: []RExp{code(220)}, Next: s}}}
+		}
+		return StepExp{Alts: []Alt{{Replies: []RExp{class(5)}, Next: s}}}
 	case "QUIT":
 		var calls []Call
 		if s.Sess {
